@@ -212,7 +212,8 @@ JLookup(r) ==
   LET want == IF r.op = "describe" THEN "descr" ELSE "search"
       n == Len(r.script)
       slackIn == MaxI(8000, r.timeout \div 3)                  \* responses this long before the deadline must be in
-      setup == IF r.op = "describe" THEN 0 ELSE 3000           \* discover: the group is joined a moment after the call
+      \* discover: the group is joined a moment after the call (8 ms allowed, plus what the machine was measurably late)
+      setup == IF r.op = "describe" THEN 0 ELSE 8000 + 2 * r.stall
       sure == {i \in 1..n : r.script[i].k = want /\ r.script[i].d >= setup /\ r.script[i].d <= r.timeout - slackIn}
       maybe == {i \in 1..n : r.script[i].k = want /\ r.script[i].d < r.timeout + r.slack}
       matchIdx == {i \in 1..n : r.script[i].k = want}
